@@ -101,6 +101,17 @@ Theorem C06_contact_request_steps_as_modelled :
                              ("contact.CheckFormat", true); ("c.metadataStore.ContactRequestIncomingReceived", true)])%string.
 Proof. exact (conj send_request_order incoming_request_order). Qed.
 
+(* live relay / splice: an honest requester that asked for ANOTHER account never makes this responder
+   report it, whoever carries the frames and whatever acknowledge follows (the authenticate box is
+   keyed with the account asked for); [a <> B]: an ephemeral scalar is not the responder's account key *)
+Theorem C06_relay_rejected :
+  forall A a Bt B b Y G ack sent,
+    Bt <> B -> a <> B ->
+    snd (requester true A a Bt Y G) = Some sent ->
+    fst (responder true B b (Pt a) sent ack) = None.
+Proof. exact relay_rejected. Qed.
+
+Print Assumptions C06_relay_rejected.
 Print Assumptions C06_contact_request_steps_as_modelled.
 Print Assumptions C06_outgoing_only_to_proven_key.
 Print Assumptions C06_outgoing_honest_and_failure.
